@@ -28,7 +28,8 @@ static size_t make_input(int kind, u8* p) {
     switch (kind) {
     case 0: fill_text(p, 3500, 7); memcpy(p + 2600, p + 90, 700); return 3500;            /* compressible, with a repeat 2.5 KiB back (beyond the window) */
     case 1: fill_noise(p, 2600, 9); return 2600;                                          /* incompressible */
-    default: memset(p, 'r', 5000); p[1023] = 'x'; p[1024] = 'y'; p[3000] = 'z'; return 5000;   /* RLE-ish, marks at block edges */
+    case 2: memset(p, 'r', 5000); p[1023] = 'x'; p[1024] = 'y'; p[3000] = 'z'; return 5000;   /* RLE-ish, marks at block edges */
+    default: for (size_t i = 0; i < 6200; i++) p[i] = (i % 1024 == 1023) ? (u8)'X' : (u8)("abc\0"[i & 3]); return 6200;      /* period 4 with a zero byte in it, the last byte of every KiB replaced: a repcode match that starts on the first byte of a new segment of the input ring may not look at the byte in front of it */
     }
 }
 
@@ -120,7 +121,7 @@ static void body(void) {
     if (g_api == 3) { body_stable(); return; }
     int ncfg = (int)vx_opt_int("--ncfg", NCFG); if (ncfg > NCFG) ncfg = NCFG;
     int ci = vx_choose(ncfg); const cfg_t* cf = &CFG[ci];
-    int kind = vx_choose(3);
+    int kind = vx_choose(4);
     size_t n = make_input(kind, g_src);
     /* parameters through a params object so that the static workspace is sized for exactly them */
     ZSTD_CCtx_params* P = ZSTD_createCCtxParams();
